@@ -1,5 +1,5 @@
 """C19 - INCLUDE is textual inclusion."""
-import os, shutil, tempfile
+import os, re, shutil, tempfile
 from vlib import asmmon, fsmon, progs
 from vlib.core import rng
 
@@ -178,7 +178,18 @@ def run_case(case, ctx):
         r1 = fsmon.run_cli("assembler.py", ["main.asm", "--print", "--symbols"], wd)
         r2 = fsmon.run_cli("assembler.py", ["whole.asm", "--print", "--symbols"], wd)
         ctx.mon("M6.cli-runs", 2)
-        if r1.code != r2.code or r1.out != r2.out or r1.exc:
+        # the property speaks of listing ADDRESSES and the symbol table: compare the address and code columns of the listing lines and the
+        # symbol lines, not the whole text (a listing may well say which file a statement came from)
+        def essence(text):
+            out = []
+            for l in text.splitlines():
+                m = asmmon.LISTING_RE.match(l)
+                if m:
+                    out.append(("stmt", m.group(1), m.group(2).strip()))
+                elif re.match(r"^\$[0-9A-Fa-f]* +\S+$", l):
+                    out.append(("sym",) + tuple(l.split()))
+            return out
+        if r1.code != r2.code or essence(r1.out) != essence(r2.out) or not essence(r1.out) or r1.exc:
             ctx.violation("include", form, "CLI-OUTPUT-DIFFERS", dict(wit, split_out=r1.out[-300:], spliced_out=r2.out[-300:]))
             ctx.outcome("differs")
             return
